@@ -3,18 +3,20 @@ import keys as K
 import suites as S
 from props import _family as F
 
-PROOF_MODULES = ['Jwt.Props.C05']
-PROP_MODULES = ['Jwt.Props.C05']
-PROP_FILES = ['Jwt/Props/C05.lean']
-GENERATED_FACT_THEOREMS = 0
+PROOF_MODULES = ['Jwt.Props.C05', 'Jwt.Props.C05Ec']
+PROP_MODULES = ['Jwt.Props.C05', 'Jwt.Props.C05Ec']
+PROP_FILES = ['Jwt/Props/C05.lean', 'Jwt/Props/C05Ec.lean', 'Jwt/Lemmas/EcFrame.lean']
+GENERATED_FACT_THEOREMS = 1
 CHECKER_CMD = "cd lean && lake build Jwt.Props.C05 && lake env lean <generated #print axioms file>"
-LEVEL_TEXT = ("Lean theorem C05_roundtrip: for every builder/callback/token, under explicit laws of the delegated parts (jansson load(dump t)=t for the two objects, non-empty MAC/signature, the primitive's own sign->verify law, possibly across providers), the generated token is accepted by a checker holding the corresponding key and pinned alg, and the header/claims it parses are exactly the per-token objects (builder content + typ/alg + iat/nbf/exp per C10). Proved from C11 (decode(encode x)=x, URL alphabet has no dot), exact alg naming/parsing over generated tables, pinning, gates, jwt_strcmp = 0 <-> equal. Provider mathematics and the ECDSA r||s re-framing inside the provider glue are sampled: every key type x admissible alg x random JSON trees x both provider pairs, >=150 (quick) / 4096 (thorough) ECDSA signatures per curve with short r/s counted.")
-ASSUMPTIONS = F.COMMON_ASSUME + ['PARTIAL: verify_sign law of OpenSSL/GnuTLS, PSS parameter compatibility, DER handling and the r||s padding arithmetic in the provider glue are assumed in the theorem and sampled by the suite']
+LEVEL_TEXT = ("Lean theorem C05_roundtrip: for every builder/callback/token, under explicit laws of the delegated parts (jansson load(dump t)=t for the two objects, non-empty MAC/signature, the primitive's own sign->verify law, possibly across providers), the generated token is accepted by a checker holding the corresponding key and pinned alg, and the header/claims it parses are exactly the per-token objects (builder content + typ/alg + iat/nbf/exp per C10). Proved from C11 (decode(encode x)=x, URL alphabet has no dot), exact alg naming/parsing over generated tables, pinning, gates, jwt_strcmp = 0 <-> equal. The ECDSA r||s framing inside both providers' glue is modelled literally (Jwt/EcFrame.lean, constants regenerated from the two sign-verify.c) and proved for every pair of integers below the field size, every leading-zero pattern and all four provider pairs (C05_frame, C05_unframe_len, C05_unframe_frame, C05_ecdsa_law, C05_roundtrip_ecdsa: the law left assumed for ES* is about the mathematical pair (r,s) only); the model is tied to the glue by running the real sign/verify paths on chosen (r,s) through interposed primitives (harness/ecframe.c). Provider mathematics is sampled: every key type x admissible alg x random JSON trees x both provider pairs, plus ECDSA volume runs.")
+ASSUMPTIONS = F.COMMON_ASSUME + ["PARTIAL: the sign->verify law of the OpenSSL/GnuTLS primitives (for ES*: on integer pairs), PSS parameter compatibility and the libraries' DER coding (gnutls_decode_rs_value returns INTEGER content octets, gnutls_encode_rs_value takes unsigned octets, BN_bn2bin is minimal big-endian) are assumed in the theorems and exercised by the suites"]
 TRUSTED_BASE = F.COMMON_TRUSTED
 replay = F.replay
 
 
 def run(ctx, model_ok, deep=False):
+    import ecframe
+    ecframe.run(ctx, model_ok, deep)
     p384 = K.gen_key("ec", "P-384", ctx.scratch)
     F.run_suites(ctx, model_ok, deep, [
         ("ecdsa-volume", lambda w, p, t, r: S.ecdsa_volume_suite(w, p, t, r, [("p256", p.keys["p256"], "ES256"), ("p384", p384, "ES384")]), S.falsify_roundtrip,
